@@ -72,10 +72,10 @@ def pipeline_cases(spec, records, cid0):
                     continue
                 events.append({"e": "simulate", "target": r["op"], "jit": bool(r["jit"]), "seed": r["seed"],
                                "vsrc": "given" if given else "own", "V": src["V"] if given else [], "N": fr["N"], "init": r["init"],
-                               "targets": [], "cols": fr["cols"], "index": fr["index"], "rows": fr["rows"], "index_names": fr["index_names"]})
+                               "targets": [], "cols": fr["cols"], "index": fr["index"], "rows": fr["rows"], "index_names": fr["index_names"], "steps": []})
         if events:
             cases.append({"cid": cid0 + len(cases), "mdl": m, "groups": ["solve", "c02", "c03"], "tol": TOL_EXACT, "reltol": TOL_EXACT,
-                          "events": events, "diag_ccv": False})
+                          "events": events, "diag_ccv": False, "diag_sim": False})
     return cases
 
 
